@@ -43,8 +43,17 @@ def hist_configs(tier):
 
 
 def run_hist(beh):
+    """ReopenTransparent: a failure counts for C12 only if the same history without the
+    reopen steps (the twin) does not fail the same way."""
     c10.RICH = True
-    return c11.replay_history(beh, persist=True)
+    r = c11.replay_history(beh, persist=True)
+    if r.get("fails") and r["key"].get("act") != "reopen":
+        twin = dict(beh)
+        twin["trail"] = [s for s in beh["trail"] if s["act"] != "reopen"]
+        r2 = c11.replay_history(twin, persist=True)
+        if r2.get("fails") and r2["key"] == r["key"]:
+            return {"fails": [], "steps": r.get("steps", 0), "beh": beh, "same_without_reopen": r["key"]}
+    return r
 
 
 # ------------------------------------------------------------------ objectdb
@@ -243,6 +252,7 @@ def main(tier):
         rnd.shuffle(behs)
         behs = behs[:40000]
     replayed = 0
+    not_reopen_related = 0
     reopen_then_undo = 0
     samples = []
     for r in replay.pool_map(run_hist, behs, chunk=200):
@@ -257,6 +267,8 @@ def main(tier):
             reopen_then_undo += 1
             if len(samples) < 2 and replayed % 13 == 0:
                 samples.append({"history": [{"act": s["act"], "arg": s["arg"]} for s in beh["trail"]]})
+        if r.get("same_without_reopen"):
+            not_reopen_related += 1
         if r["fails"]:
             folder_move = any(l["k"] == "MV" and l["p"][-1] in ("d", "e") for s2 in beh["trail"]
                               if s2["act"] == "do" for l in s2["arg"]["leaves"])
@@ -324,6 +336,7 @@ def main(tier):
         "traces_validated_against_impl": replayed + ser_checked + oi_cases,
         "history_behaviours_replayed": replayed,
         "history_behaviours_with_undo_or_redo_after_reopen": reopen_then_undo,
+        "history_failures_identical_without_reopen_left_to_C11": not_reopen_related,
         "serializer_values_round_tripped": ser_checked,
         "serializer_encoding_differs_from_transcription": conf_diff,
         "objectdb_cases": oi_cases, "objectdb_entries_compared": oi_entries,
